@@ -8,7 +8,7 @@ MODULES = ['OFModel.RollLog']
 PROP_FILES = ['C14', 'C14Stream']
 RULE = ('histories of a writer and a read-only RollLog(head=...) in a fresh temp directory: mode in {bin, binl, txt, json} x file_size in {1..30} x '
         'total_size in {12..unlimited} x autorefresh on/off; 2-6 reader incarnations, each doing reads/read_blocks, position saves (write_head), '
-        'interleaved writes (strictly increasing timestamps; C13 covers repeated and backwards ones), prunes and external deletions, and ending by: a crash injected at one of the '
+        'interleaved writes (strictly increasing timestamps in 70 % of the histories, repeated and backwards explicit timestamps in the rest), prunes and external deletions, and ending by: a crash injected at one of the '
         'five points of write_head (before create-temp / after create / after a partial write / after close, before rename / after rename), a clean '
         'close(), or a stop without close; then a new RollLog(head=...) is constructed; the last incarnation drains the log. non-trivial = at least '
         'one crash inside write_head and at least one record delivered after a restart. Lean: lean/OFProps/C14.lean (per save / per restart) and '
@@ -37,13 +37,14 @@ def gen_case(rng, max_ops=12):
     st = {'ts': rng.choice([1000.0, 1.7e9]), 'n': 0}
     case['clk0'] = st['ts']
     ops = []
-    for _ in range(rng.randint(1, 5)): ops.append(rc.gen_write(rng, mode, st, monotone=True))
+    mono = rng.random() < 0.7       # the rest: repeated and backwards explicit timestamps (records emitted late, clock steps) - file names must still sort in creation order
+    for _ in range(rng.randint(1, 5)): ops.append(rc.gen_write(rng, mode, st, monotone=mono))
     ops.append({'o': 'reopen', 'who': 'r', 'auto': case['rauto']})     # first incarnation sees the files
     for inc in range(rng.randint(2, 6)):
         for _ in range(rng.randint(0, max_ops)):
             r = rng.random()
             if r < 0.40: ops.append({'o': 'read', 'who': 'r', 'block': rng.random() < 0.25})
-            elif r < 0.70: ops.append(rc.gen_write(rng, mode, st, monotone=True))
+            elif r < 0.70: ops.append(rc.gen_write(rng, mode, st, monotone=mono))
             elif r < 0.82: ops.append({'o': 'save', 'who': 'r', 'crash': None})
             elif r < 0.88: ops.append({'o': 'delete', 'idx': rng.choice([-1, 0, 0, 1, 2])})
             elif r < 0.93: ops.append({'o': 'refresh', 'who': 'r'})
@@ -51,7 +52,7 @@ def gen_case(rng, max_ops=12):
         r = rng.random()
         if r < 0.6: ops.append({'o': 'save', 'who': 'r', 'crash': rng.randint(0, 4)})
         elif r < 0.8: ops.append({'o': 'close', 'who': 'r'})
-        for _ in range(rng.randint(0, 2)): ops.append(rc.gen_write(rng, mode, st, monotone=True))
+        for _ in range(rng.randint(0, 2)): ops.append(rc.gen_write(rng, mode, st, monotone=mono))
         ops.append({'o': 'reopen', 'who': 'r', 'auto': rng.random() < 0.7})
     ops.append({'o': 'drain', 'who': 'r', 'block': rng.random() < 0.2})
     case['ops'] = ops
